@@ -219,7 +219,7 @@ def run_program(root, main='main.py', hook=None, argv=None):
     return buf.getvalue(), exc
 
 
-def run_instrumented(files, scratch_dir, main='main.py'):
+def run_instrumented(files, scratch_dir, main='main.py', observer=None):
     """-> RunResult.  `files` = {relpath: text} (un-instrumented)."""
     res = RunResult()
     inst, table = instrument(files)
@@ -231,6 +231,8 @@ def run_instrumented(files, scratch_dir, main='main.py'):
     def hook(k, v):
         try:
             observed.setdefault(k, set()).add(describe(v, root_mods))
+            if observer is not None:
+                observer(k, v)
         except Exception:
             pass
         return v
